@@ -420,6 +420,25 @@ fn fpat(rng: &mut StdRng, nw: usize, pat: &str) -> Vec<u64> {
             v[..k].fill(!0);
             v[nw - 1] = rng.gen();
         }
+        // words drawn from a few extreme values: sub-products with all-ones / zero low words (carry chains of the
+        // Karatsuba recombination)
+        "runs" => v[..nw].iter_mut().for_each(|x| {
+            *x = match rng.gen_range(0..6) {
+                0 => 0,
+                1 | 2 => !0,
+                3 => 1,
+                4 => !0 - 1,
+                _ => 1 << 63,
+            }
+        }),
+        // 2^a - 2^b: one run of ones
+        "pow2diff" => {
+            let a = rng.gen_range(1..64 * nw);
+            let b = rng.gen_range(0..a);
+            for i in b..a {
+                v[i / 64] |= 1 << (i % 64);
+            }
+        }
         _ => panic!("unknown FInt pattern"),
     }
     v
